@@ -49,6 +49,9 @@ func init() {
 	mutant(&Mutant{Name: "c19-separator-only-for-one-js-type", Property: "C19", File: "cmd/minify/main.go",
 		Old: "\t\tif err == nil && jsMimetypeRegexp.MatchString(fileMimetype) {", New: "\t\tif err == nil && fileMimetype == extMap[\"js\"] {",
 		Rule: "R19.4", Construct: "bundle separator"})
+	mutant(&Mutant{Name: "c19-single-star-translated-first", Property: "C19", File: "cmd/minify/main.go",
+		Old: "\t\tpattern = strings.ReplaceAll(pattern, `\\*\\*`, `.*`)\n\t\tpattern = strings.ReplaceAll(pattern, `\\*`, fmt.Sprintf(`[^%c]*`, filepath.Separator))\n", New: "\t\tpattern = strings.ReplaceAll(pattern, `\\*`, fmt.Sprintf(`[^%c]*`, filepath.Separator))\n\t\tpattern = strings.ReplaceAll(pattern, `\\*\\*`, `.*`)\n",
+		Rule: "R19.12", Construct: "replaced before"})
 	mutant(&Mutant{Name: "c19-first-filter-wins", Property: "C19", File: "cmd/minify/main.go",
 		Old: "\t\t\tmatch = filters[i][0] == '+'\n", New: "\t\t\tmatch = filters[i][0] == '+'\n\t\t\tbreak\n",
 		Rule: "R19.10", Construct: "filter loop"})
@@ -65,6 +68,9 @@ func init() {
 	mutant(&Mutant{Name: "c20-backup-replaces-existing-file", Property: "C20", File: "cmd/minify/main.go",
 		Old: "\t\t\t\tif _, err := os.Lstat(srcs[i]); err == nil {\n", New: "\t\t\t\tif _, err := os.Lstat(t.dst); err != nil {\n",
 		Rule: "R20.8", Construct: "backup rename"})
+	mutant(&Mutant{Name: "c20-samefile-only-for-equal-names", Property: "C20", File: "cmd/minify/main.go",
+		Old: "\t\tfor i := range srcs {\n\t\t\tif sameFile, _ := SameFile(srcs[i], t.dst); sameFile {", New: "\t\tfor i := range srcs {\n\t\t\tif filepath.Base(srcs[i]) != filepath.Base(t.dst) {\n\t\t\t\tcontinue\n\t\t\t}\n\t\t\tif sameFile, _ := SameFile(srcs[i], t.dst); sameFile {",
+		Rule: "R20.1", Construct: "every source is compared"})
 	mutant(&Mutant{Name: "c20-truncate-before-backup", Property: "C20", File: "cmd/minify/main.go",
 		Old:  "\t\t\t\tif err != nil {\n\t\t\t\t\tError.Println(err)\n\t\t\t\t\treturn false\n\t\t\t\t}\n\t\t\t\tbreak\n\t\t\t}\n\t\t}\n\t}\n",
 		New:  "\t\t\t\tif err != nil {\n\t\t\t\t\tError.Println(err)\n\t\t\t\t}\n\t\t\t\tbreak\n\t\t\t}\n\t\t}\n\t}\n",
@@ -387,6 +393,25 @@ func (c *Ctx) r201(x *cliCtx) {
 			}
 		}
 		return isTaskDst(info, e) && (b.Op == token.EQL) == (y.Kind == flow.KTrue)
+	}
+	// (a') every source is examined: an iteration of the loop cannot end (continue, next element) without the SameFile test
+	{
+		var sameCall *flow.Node
+		for _, n := range g.Nodes {
+			if n.Kind == flow.KStmt && n.Ast() != nil && len(findCalls(info, n.Ast(), false, mainPkg+".SameFile")) > 0 && g.Dominates(loop, n) {
+				sameCall = n
+			}
+		}
+		var tn *flow.Node
+		for _, sc := range loop.Succs {
+			if sc.Kind == flow.KTrue {
+				tn = sc
+			}
+		}
+		if sameCall != nil && tn != nil {
+			ps := g.Path(flow.Search{From: []*flow.Node{tn}, Goal: func(y *flow.Node) bool { return y == loop || y == o }, Avoid: func(y *flow.Node) bool { return y == sameCall }})
+			c.R.Check(ps == nil, rule, "main.minify/every source is compared with the destination", c.pos(loop.Stmt), "no iteration skips SameFile", "an input can be skipped by the overwrite detection without being compared with the destination (a filter on the file name misses a symbolic or hard link under another name): "+pathStr(c, g, ps))
+		}
 	}
 	p := g.MustPassBefore(o, func(y *flow.Node) bool { return y == loop || emptyDst(y) }, flow.Search{})
 	c.R.Check(p == nil, rule, "main.minify/truncating open behind overwrite detection", c.pos(o.Ast()), "reached only through the SameFile loop (or for stdout)", "the destination can be truncated without first checking whether it is one of the inputs: "+pathStr(c, g, p))
@@ -959,6 +984,7 @@ func runC19(c *Ctx) {
 	c.r199()
 	c.r1910(x)
 	c.r208(x, "R19.11")
+	c.r1912(x)
 }
 
 // R19.8: the bundle reader delivers files in order with the whole separator between them.
@@ -1702,4 +1728,72 @@ func (c *Ctx) r1910(x *cliCtx) {
 		c.R.Check(len(bad) == 0, rule, construct, c.pos(rs), "runs to completion, the last match decides", strings.Join(bad, "; "))
 	}
 	c.R.Floor(rule, "filter loops", n, 1)
+}
+
+// R19.12: `**` is translated before `*`.
+func (c *Ctx) r1912(x *cliCtx) {
+	const rule = "R19.12"
+	c.R.Rule(rule, "cmd/minify.compilePattern turns a glob into a regular expression by replacing the quoted wildcards. `\\*\\*` (any path) contains `\\*` (any name): the replacement of the longer wildcard must come first — an earlier strings.ReplaceAll, or an earlier pair of a strings.NewReplacer (which tries its pairs in argument order). Otherwise `**` becomes `[^/]*[^/]*` and --exclude '**/vendor/**' no longer reaches below the first directory level")
+	pk, info := x.pk, x.info
+	fd := c.fn(rule, pk, "compilePattern")
+	if fd == nil {
+		return
+	}
+	g := c.graph(pk, fd)
+	constStr := func(e ast.Expr) (string, bool) {
+		v, err := c.Ev.Expr(pk, e)
+		if err != nil {
+			return "", false
+		}
+		sv, ok := v.(string)
+		return sv, ok
+	}
+	type rep struct {
+		old string
+		n   *flow.Node
+		idx int
+	}
+	var reps []rep
+	for _, y := range g.Nodes {
+		a := y.Ast()
+		if a == nil || y.Kind != flow.KStmt {
+			continue
+		}
+		flowInspectCalls(a, func(call *ast.CallExpr) {
+			switch calleeName(info, call) {
+			case "strings.ReplaceAll", "strings.Replace":
+				if len(call.Args) >= 3 {
+					if sv, ok := constStr(call.Args[1]); ok {
+						reps = append(reps, rep{sv, y, 0})
+					}
+				}
+			case "strings.NewReplacer":
+				for i := 0; i+1 < len(call.Args); i += 2 {
+					if sv, ok := constStr(call.Args[i]); ok {
+						reps = append(reps, rep{sv, y, i})
+					}
+				}
+			}
+		})
+	}
+	var star, dstar *rep
+	for i := range reps {
+		switch reps[i].old {
+		case `\*`:
+			star = &reps[i]
+		case `\*\*`:
+			dstar = &reps[i]
+		}
+	}
+	if star == nil || dstar == nil {
+		c.R.Unres(rule, "main.compilePattern/wildcard replacements", c.pos(fd), "the replacements of `\\*` and `\\*\\*` were not both found")
+		return
+	}
+	ok := false
+	if star.n == dstar.n {
+		ok = dstar.idx < star.idx
+	} else {
+		ok = g.Dominates(dstar.n, star.n)
+	}
+	c.R.Check(ok, rule, "main.compilePattern/`**` replaced before `*`", c.pos(dstar.n.Ast()), "longest wildcard first", "the single star is translated first (or listed first in the replacer): `**` turns into two name wildcards and stops at a directory separator")
 }
